@@ -54,7 +54,7 @@ def mkfont(r, npal, zero_advance=False):
             pts = [(int(cx + s * math.cos(2 * math.pi * k / n + 0.7)), int(cy + s * math.sin(2 * math.pi * k / n + 0.7))) for k in range(n)]
             shapes[nm] = pts
             curved[nm] = nm == "q1" or r.random() < 0.5  # True: no on-curve point at all
-    order = [".notdef", "A", "B"] + list(shapes) + ["comp"]
+    order = [".notdef", "A", "B"] + list(shapes) + ["comp", "compm"]
     fb = FontBuilder(1000, isTTF=True)
     fb.setupGlyphOrder(order)
     fb.setupCharacterMap({0x41: "A", 0x42: "B"})
@@ -82,8 +82,19 @@ def mkfont(r, npal, zero_advance=False):
     glyphs["comp"] = pen.glyph()
     allx = [p[0] for p in shapes["s0"]] + [p[0] + 37 for p in shapes["s1"]]
     hm["comp"] = (1000, min(allx))
+    # a composite with a mirrored component that overlaps the unmirrored one: the mirror reverses the contour
+    # direction, so under the non-zero rule the overlap is a hole
+    mx = sum(p[0] for p in shapes["s2"]) // len(shapes["s2"])
+    sh = r.randint(20, 90)
+    pen = TTGlyphPen({k: v for k, v in glyphs.items()})
+    pen.addComponent("s2", (1, 0, 0, 1, 0, 0))
+    pen.addComponent("s2", (-1, 0, 0, 1, 2 * mx + sh, 0))
+    glyphs["compm"] = pen.glyph()
+    mirrored = [(2 * mx + sh - x, y) for x, y in shapes["s2"]]
+    hm["compm"] = (1000, min(p[0] for p in shapes["s2"] + mirrored))
     shapes_all = dict(shapes)
     shapes_all["comp"] = shapes["s0"] + [(x + 37, y - 21) for x, y in shapes["s1"]]
+    shapes_all["compm"] = shapes["s2"] + mirrored
     fb.setupGlyf(glyphs)
     fb.setupHorizontalMetrics(hm)
     asc, desc = r.choice([(800, -200), (950, -250), (1000, 0)])
